@@ -179,6 +179,24 @@ func c15Build(c c15Config) *c15World {
 		if c.Phase != "unresolved-dependency" {
 			w.f.Get("/n", append(append([]flamego.Handler{}, hs...), final)...)
 		}
+	case "use-action", "route-action":
+		// the panicking handler is the application's final Action; the handlers before it are application
+		// middleware or the route's own handlers (Recovery may then be the last entry of the handler list)
+		routes := []string{"/p"}
+		if c.Phase != "unresolved-dependency" {
+			routes = append(routes, "/n")
+		}
+		if c.Style == "use-action" {
+			w.f.Use(hs[:c.P]...)
+			for _, rt := range routes {
+				w.f.Get(rt)
+			}
+		} else {
+			for _, rt := range routes {
+				w.f.Get(rt, append([]flamego.Handler{}, hs[:c.P]...)...)
+			}
+		}
+		w.f.Action(hs[c.P])
 	case "group":
 		w.f.Use(hs[:c.R+1]...)
 		w.f.Group("/", func() {
@@ -258,6 +276,9 @@ func c15CheckPanic(c c15Config, rs c15Resp) (bad, kind string) {
 	case "after-body", "after-next":
 		wantStatus = 200
 	}
+	if c.Phase == "after-next" && strings.HasSuffix(c.Style, "-action") {
+		wantStatus = 500 // nothing follows the Action: its Next() runs nothing, so nothing has been written
+	}
 	if rs.status != wantStatus {
 		return fmt.Sprintf("status %d, expected %d (500 iff no status had been sent before the panic)", rs.status, wantStatus), "status"
 	}
@@ -335,7 +356,7 @@ func c15Configs(thorough bool) []c15Config {
 	}
 	phases := []string{"before-write", "after-status", "after-body", "after-next", "unresolved-dependency"}
 	values := []string{"string", "error", "runtime", "struct", "abort", "nil-error-pointer", "panicking-stringer"}
-	styles := []string{"use", "route", "group"}
+	styles := []string{"use", "route", "group", "use-action", "route-action"}
 	for n := 2; n <= maxN; n++ {
 		for r := 0; r < n-1; r++ {
 			for p := r + 1; p < n; p++ {
@@ -348,6 +369,9 @@ func c15Configs(thorough bool) []c15Config {
 							for _, st := range styles {
 								if !thorough && n == 4 && st == "group" && v != "string" {
 									continue
+								}
+								if strings.HasSuffix(st, "-action") && (p != n-1 || (!thorough && n == 4 && v != "string" && v != "struct")) {
+									continue // the action is the last position of the stack
 								}
 								out = append(out, c15Config{N: n, R: r, P: p, Phase: ph, Between: bm, Value: v, Style: st})
 								if st == "use" && (v == "string" || v == "struct") {
@@ -392,7 +416,7 @@ func c15Run(r *core.Run) {
 	if !r.Thorough() {
 		seqs = []string{"P", "PN", "PPN", "NPN", "PNP", "PQ", "QPQ"}
 	}
-	r.Rule = "engine E: stacks of 2..4 (thorough 5) handlers with Recovery at every position, logging middleware before it, pass-through handlers (with and without their own Next()) between it and the panicking handler at every later position; panic phase {before any write, after a status, after body bytes, after Next() returned, unresolved dependency} x value {string, error, runtime error, struct, http.ErrAbortHandler, typed-nil error pointer, value whose String() panics} x registration style {application middleware, route handlers, middleware+group} x environment {development, production, test} x request sequences over {panicking, normal}; oracle: nothing escapes, status 500 iff nothing had been sent, detail in the body iff development, outer middleware completes, normal requests equal a fresh instance; non-trivial = sequence with >=2 requests or a panic after something was written"
+	r.Rule = "engine E: stacks of 2..4 (thorough 5) handlers with Recovery at every position, logging middleware before it, pass-through handlers (with and without their own Next()) between it and the panicking handler at every later position; panic phase {before any write, after a status, after body bytes, after Next() returned, unresolved dependency} x value {string, error, runtime error, struct, http.ErrAbortHandler, typed-nil error pointer, value whose String() panics} x registration style {application middleware, route handlers, middleware+group, middleware or route handlers with the panicking handler as the final Action} x environment {development, production, test} x request sequences over {panicking, normal}; oracle: nothing escapes, status 500 iff nothing had been sent, detail in the body iff development, outer middleware completes, normal requests equal a fresh instance; non-trivial = sequence with >=2 requests or a panic after something was written"
 	r.Bounds["configs"] = len(cfgs)
 	r.Bounds["sequences"] = seqs
 	r.Assumptions = []string{"panic(nil) is outside the statement ('any non-nil value')", "environments are process-global: the three environments run as sequential phases"}
